@@ -499,16 +499,18 @@ theorem old_tag_compare_writes_ciphertext (cl tagSize : Nat) (ht : 0 < tagSize) 
 
   The lists are generated by /verif/go/cmd/translate/gofacts.go from the non-test Go files of
   utils, sm3, sm4, sm2, sm2/internal, sm2/internal/fiat (files named verif_export* and files
-  under a `tablegen`/`ignore` build tag excluded).  The generator is SYNTACTIC.  It covers:
-  assignments (`=`, `op=`), `++`/`--`, and `copy` destinations whose ROOT identifier (through
-  selectors, indexing, slicing, `*`, `&`, parentheses) is a package-level variable not shadowed by
-  a parameter or local declaration, and method calls whose receiver has such a root — in every
-  function other than `init` and unexported functions called only from init-only functions.
-  It does NOT cover: writes through pointers (or slices, maps) obtained from a package-level
-  variable and passed around or stored (`p := &table[0]; *p = …`, `f(table[:])`); writes performed
-  inside callees of other packages; `unsafe`; assembly (covered by 2b: the read-only symbols are
-  never the region of a write access).  Those would show up in the race-detector run of the
-  harness, which is evidence, not proof. -/
+  under a never-set `verif`/`tablegen`/`ignore` build tag excluded).  The generator works on TYPE-CHECKED
+  syntax (go/types), once per build configuration (amd64, arm64, neither), facts united, fail-closed (ill-typed
+  code or a file in no configuration stops it).  It covers: assignments (`=`, `op=`), `++`/`--`, range-assign
+  targets, destinations of copy/clear/delete/append, method calls and method values, address-taking and array
+  slicing, whose ROOT (through selectors, indexing, slicing, `*`, `&`, parentheses, conversions, accessor calls,
+  local aliases, and PARAMETERS/receivers bound interprocedurally to every package-level variable some call site
+  passes) is a package-level variable of any package — in every function other than initialisation code; function
+  literals always count as non-initialisation code.  Arguments rooted at package-level variables that leave the
+  module are listed with callee and position.  Positive controls, the allow-lists and what is NOT covered (pointers
+  stored by a callee and read back later, pointers returned by foreign code from a non-receiver argument, function
+  values, unsafe, reflection, assembly = 2b) are in Props/C17Facts.lean.  What is not covered would show up in the
+  race-detector run of the harness, which is evidence, not proof. -/
 
 /-- no statement outside initialisation writes a package-level variable -/
 theorem no_package_level_writes : Gen.GoFacts.packageLevelWrites = [] := by decide
